@@ -5,7 +5,7 @@ Open Scope N_scope.
 
 Definition connect_of (c : cfg) (s : srv) (eio : str) (payload : pv) (tbl : jtable) : option (option str * pv) :=
   match classify c s eio payload tbl with
-  | Some (Ok r) => if type_is (rp r) CONNECT && uses_binary c then Some (pns (rp r), pdata (rp r)) else None
+  | Some (Ok r) => if type_is (rp r) CONNECT then Some (pns (rp r), pdata (rp r)) else None
   | _ => None
   end.
 
